@@ -55,6 +55,9 @@ struct WCfg {
     post: bool,
     init: bool,
     filter: Option<usize>,
+    /// a second filter in the request (End-of-RIB events, no snapshot asked for it): 0 none,
+    /// 1 after the table filter, 2 before it
+    extra: u8,
 }
 
 struct Watcher {
@@ -211,7 +214,7 @@ impl Check for WatchStreams {
             nodes.push(node_json(&n));
         }
         let watchers: Vec<Json> = (0..n_w)
-            .map(|_| jobj! {"peer" => rng.chance(2, 3), "post" => rng.coin(), "init" => rng.chance(4, 5), "filter" => if rng.chance(1, 4) { rng.below(n_nodes as u64) as i64 } else { -1i64 }})
+            .map(|_| jobj! {"peer" => rng.chance(2, 3), "post" => rng.coin(), "init" => rng.chance(4, 5), "filter" => if rng.chance(1, 4) { rng.below(n_nodes as u64) as i64 } else { -1i64 }, "extra" => *rng.pick(&[0u64, 0, 1, 2])})
             .collect();
         let n = rng.range(8, if thorough { 60 } else { 30 });
         let mut ops: Vec<Json> = Vec::new();
@@ -261,7 +264,7 @@ impl Check for WatchStreams {
 
     fn info(&self) -> CheckInfo {
         CheckInfo {
-            rule: "1-3 real sessions (eBGP / iBGP, optional add-path receive, optional graceful restart) announcing and withdrawing IPv4 / IPv6 prefixes with several path ids, dropping by FIN, RST, NOTIFICATION or operator reset and coming back, End-of-RIB, waits across the restart timer; 1-3 WatchEvent clients (with or without peer events; pre-policy or post-policy Adj-RIB-In; with or without the initial snapshot; all neighbours or one) opened and cancelled through the real gRPC handler at arbitrary points, also inside bursts that are not allowed to settle; a client may stop reading for a while. Each client folds its stream as the API documents (insert / is_withdraw remove per (neighbour, family, NLRI, path id); a neighbour reported Idle loses its entries). At each quiescent point a client that asked for the snapshot and has read everything is compared with the RIB, neighbour by neighbour. non-trivial = such a client was compared for at least one neighbour with routes".into(),
+            rule: "1-3 real sessions (eBGP / iBGP, optional add-path receive, optional graceful restart) announcing and withdrawing IPv4 / IPv6 prefixes with several path ids, dropping by FIN, RST, NOTIFICATION or operator reset and coming back, End-of-RIB, waits across the restart timer; 1-3 WatchEvent clients (with or without peer events; pre-policy or post-policy Adj-RIB-In; with or without the initial snapshot; all neighbours or one; optionally with a second filter for End-of-RIB events before or after the table filter) opened and cancelled through the real gRPC handler at arbitrary points, also inside bursts that are not allowed to settle; a client may stop reading for a while. Each client folds its stream as the API documents (insert / is_withdraw remove per (neighbour, family, NLRI, path id); a neighbour reported Idle loses its entries). At each quiescent point a client that asked for the snapshot and has read everything is compared with the RIB, neighbour by neighbour. non-trivial = such a client was compared for at least one neighbour with routes".into(),
             components_real: vec![
                 "GrpcService::watch_event (request parsing, peer init phase, snapshot drain, live loop, filters), adj_rib_in_to_table_event, watch_peer_event".into(),
                 "TableManager::{subscribe, unsubscribe, insert_route, remove_route, unregister_peer, drop_stale_families, notify_stale_purge, peer_up, peer_down}; real sessions".into(),
@@ -311,7 +314,7 @@ async fn run(case: Json, tol: Tolerate) -> Outcome {
         .iter()
         .map(|j| {
             let f = j.i("filter", -1);
-            Watcher::new(WCfg { peer: j.get("peer").map(|b| b.as_bool()).unwrap_or(true), post: j.get("post").map(|b| b.as_bool()).unwrap_or(false), init: j.get("init").map(|b| b.as_bool()).unwrap_or(true), filter: if f < 0 { None } else { Some(f as usize % t.nodes.len()) } })
+            Watcher::new(WCfg { peer: j.get("peer").map(|b| b.as_bool()).unwrap_or(true), post: j.get("post").map(|b| b.as_bool()).unwrap_or(false), init: j.get("init").map(|b| b.as_bool()).unwrap_or(true), filter: if f < 0 { None } else { Some(f as usize % t.nodes.len()) }, extra: j.i("extra", 0) as u8 })
         })
         .collect();
     if ws.is_empty() {
@@ -423,7 +426,15 @@ async fn run(case: Json, tol: Tolerate) -> Outcome {
                     use api::watch_event_request::table::{filter::Type as FT, Filter};
                     let cfg = ws[k].cfg.clone();
                     let filt = Filter { r#type: if cfg.post { FT::PostPolicy as i32 } else { FT::Adjin as i32 }, init: cfg.init, peer_address: cfg.filter.map(|n| t.nodes[n].cfg.addr.to_string()).unwrap_or_default(), peer_group: String::new() };
-                    let req = api::WatchEventRequest { peer: if cfg.peer { Some(api::watch_event_request::Peer {}) } else { None }, table: Some(api::watch_event_request::Table { filters: vec![filt] }), batch_size: 0 };
+                    // a request may carry several filters: what one of them asks for (the snapshot, the
+                    // neighbour) must not be lost because another one does not ask for it
+                    let eor = Filter { r#type: FT::Eor as i32, init: false, peer_address: filt.peer_address.clone(), peer_group: String::new() };
+                    let filters = match cfg.extra {
+                        1 => vec![filt, eor],
+                        2 => vec![eor, filt],
+                        _ => vec![filt],
+                    };
+                    let req = api::WatchEventRequest { peer: if cfg.peer { Some(api::watch_event_request::Peer {}) } else { None }, table: Some(api::watch_event_request::Table { filters }), batch_size: 0 };
                     match t.w.grpc.watch_event(tonic::Request::new(req)).await {
                         Ok(r) => {
                             let mut w = Watcher::new(cfg);
